@@ -52,6 +52,24 @@ CHECKS = {
               "getJointTransforms, jacobian() and jacobianBody() are compared with the model (1e-7 poses).  640 "
               "(quick) / 4e4 (thorough) histories."),
         ref="DESIGN.md section 5 / C05"),
+    "C06": dict(
+        technique="runtime monitoring: finite-difference (Richardson) oracle on the arm's own FK, virtual-work oracle for statics",
+        text=("For 400 (quick) / 2e4 (thorough) generated (arm, base, optional move/tool change, configuration) cases the "
+              "derivative of the arm's own FK / FKLink is taken by Richardson-extrapolated central differences and compared "
+              "(1e-6 relative to the Jacobian norm) with jacobian, jacobianBody (also against Ad(inv T) J_space), "
+              "jacobianLink for every link index, jacobianEETrans, numericalJacobian and velocityAtEndEffector; statics is "
+              "checked by power balance, transpose, inverse (rank 6, sigma_min >= 0.05) and, for link masses, by "
+              "differentiating the published link centre-of-mass positions."),
+        ref="DESIGN.md section 5 / C06"),
+    "C07": dict(
+        technique="runtime monitoring: postcondition oracle on every solver return + state coherence, fault goals (unreachable)",
+        text=("1.6e3 (quick) / 1e5 (thorough) solves over arms x goals (reachable, limit boundary, beyond 1.5x a reach bound) x "
+              "starts x restarts on/off x 12 tolerance pairs with pos != rot x {IK, constrainedIK, IK free, IKFree}.  On "
+              "success the oracle's own PoE forward kinematics of the returned vector must meet the configured orientation and "
+              "position tolerances, respect the limits (limit path) and equal the published state; unreachable goals must fail; "
+              "failures must leave getEEPos() equal to the pose of the stored joint vector; starts within 0.02 rad of a "
+              "well-conditioned in-limit solution must succeed (perturbation filter)."),
+        ref="DESIGN.md section 5 / C07"),
     "C12": dict(
         technique="runtime monitoring: reference-oracle monitor (own adjoint) over generated frames/operands",
         text=("Frame-change group action, recorded frame, pairing invariance, p x f moment and zero moment at the "
